@@ -54,6 +54,17 @@ func (ss *SolverSet) abstractUnsat(pc []*Term, t *Term, timeoutMs int) bool {
 	tt := ab[len(pc)]
 	rest := append(append([]*Term{}, ab[:len(pc)]...), ab[len(pc)+1:]...)
 	sl := append(sliceTerms(rest, tt), tt)
+	key := "a:" + assertsKey(sl)
+	if v, ok := queryCache.Load(key); ok {
+		atomic.AddInt64(&stats.CacheHits, 1)
+		return v.(bool)
+	}
+	res := ss.abstractUnsatUncached(sl, timeoutMs)
+	queryCache.Store(key, res)
+	return res
+}
+
+func (ss *SolverSet) abstractUnsatUncached(sl []*Term, timeoutMs int) bool {
 	q := &Query{Asserts: sl}
 	if r, _ := ss.z3n.run(q, timeoutMs); r != "unsat" {
 		return false
